@@ -497,23 +497,23 @@ class AttributeSet(TypedExpression):
                             del self.attrpath_order[index]
                             break
                 if position is not None:
-                    self._keep_own_line_comments(binding, position)
+                    self._keep_own_line_comments(binding.after, position)
                 return
         raise KeyError(key)
 
-    def _keep_own_line_comments(self, removed: Binding, position: int) -> None:
+    def _keep_own_line_comments(self, removed_after: list[Any], position: int) -> None:
         """Own-line comments after a binding are not part of it: keep them in the set."""
         start = next(
             (
                 index
-                for index, item in enumerate(removed.after)
+                for index, item in enumerate(removed_after)
                 if item is linebreak or item is empty_line
             ),
             None,
         )
         if start is None:
             return
-        kept = removed.after[start:]
+        kept = removed_after[start:]
         if not any(isinstance(item, Comment) for item in kept):
             return
         order = self.attrpath_order or self.values
